@@ -23,12 +23,21 @@ class BadStr(Exception):
         raise RuntimeError('str() of this exception fails')
 
 
+class Unhashable(Exception):
+    """A legal exception class that cannot be put into a set (defines __eq__, no __hash__)."""
+
+    def __eq__(self, other):
+        return self is other
+
+    __hash__ = None
+
+
 EXC = {
     'ValueError': ValueError, 'KeyError': KeyError, 'AssertionError': AssertionError,
     'CustomError': CustomError, 'BadStr': BadStr, 'NotImplementedError': NotImplementedError,
     'SkipTest': unittest.SkipTest, 'SystemExit': SystemExit,
     'KeyboardInterrupt': KeyboardInterrupt, 'OSError': OSError, 'TypeError': TypeError,
-    'MemoryError': MemoryError,
+    'MemoryError': MemoryError, 'Unhashable': Unhashable,
 }
 
 # event flag bits
